@@ -14,9 +14,9 @@ impl BytesMut {
     #[verifier::external_body]
     pub fn from(b: Bytes) -> (r: BytesMut) ensures r@ == b@ { unimplemented!() }
     #[verifier::external_body]
-    pub fn remaining(&self) -> (r: usize) ensures r == self@.len() { unimplemented!() }
+    pub fn remaining(&self) -> (r: usize) ensures r == self@.len(), r <= 0x7fff_ffff_ffff_ffff { unimplemented!() }
     #[verifier::external_body]
-    pub fn len(&self) -> (r: usize) ensures r == self@.len() { unimplemented!() }
+    pub fn len(&self) -> (r: usize) ensures r == self@.len(), r <= 0x7fff_ffff_ffff_ffff { unimplemented!() }
     #[verifier::external_body]
     pub fn is_empty(&self) -> (r: bool) ensures r == (self@.len() == 0) { unimplemented!() }
     #[verifier::external_body]
